@@ -605,7 +605,27 @@ def check_dict_guards(r, rule, nn, engine_functions=None):
                     a = strip(a)
                     if head(a) == "cmp" and a[1] in ("in", "notin") and strip_all(a[2]) == strip_all(k_) and strip_all(a[3]) == strip_all(d_):
                         return (a[1] == "in") == p
+                    if head(a) == "cmp" and a[1] in ("is", "isnot", "eq", "ne", "==", "!="):
+                        # d.get(k) is None (directly or through a name bound to it): the key is absent
+                        for x, y in ((a[2], a[3]), (a[3], a[2])):
+                            x, y = strip(x), strip(y)
+                            if y == NONE and is_mcall(x, "get") and strip_all(strip(x[1])[1]) == strip_all(d_) and x[2] and strip_all(x[2][0]) == strip_all(k_) \
+                                    and (len(x[2]) == 1 or strip(x[2][1]) == NONE):
+                                return (a[1] in ("isnot", "ne", "!=")) == p
+                    if head(a) == "caught" and p:
+                        # except KeyError around a read of d[k]: the key is absent in the handler
+                        reads = [x for x in s.events_of("load_sub") if a[1] in x.ctx.tries and strip_all(x["obj"]) == strip_all(d_) and strip_all(x["index"]) == strip_all(k_)]
+                        if reads and "KeyError" in show(a[2], 60):
+                            return False
             return None
+        def mentions(e, d_):
+            """some guard of e speaks about the dictionary in a way membership() does not classify."""
+            def plain_membership(g, pol):
+                # a membership test of some other key of this dictionary is classified (as not guarding this key)
+                ls = [strip(a) for a, _ in lits(g, pol)]
+                return bool(ls) and all(head(a) == "cmp" and a[1] in ("in", "notin") and strip_all(a[3]) == strip_all(d_) and strip_all(d_) not in [strip_all(x) for x in walk(("t", a[2]))] for a in ls)
+            return any(strip_all(d_) in [strip_all(x) for x in walk(("t", g))] and not plain_membership(g, pol) for g, pol in e.ctx.guards) \
+                or any(head(strip(g)) == "caught" for g, _ in e.ctx.guards)
         def is_map(o):
             try:
                 return nn.map_info(q, o) is not None or (head(strip(o)) in ("dict", "alloc") and nn._map_local(q, o) is not None)
@@ -631,6 +651,10 @@ def check_dict_guards(r, rule, nn, engine_functions=None):
             if pol is None and what == "read" and (strip_all(d_), strip_all(k_)) not in stored_keys:
                 seen.add(key)
                 r.rep.require(False, f"{q}:{getattr(e.node, 'lineno', 0)}: {show(d_, 30)}[{show(k_, 30)}] is read without a membership test, .get() or try / except KeyError around it; whether the key is always present cannot be decided [{rule}]")
+                continue
+            if pol is None and what == "create" and e.ctx.loops and mentions(e, d_):
+                seen.add(key)
+                r.rep.require(False, f"{q}:{getattr(e.node, 'lineno', 0)}: {show(d_, 30)}[{show(k_, 30)}] = [..] is guarded by a test of the dictionary that is not a membership test of this key, .get(key) is None or except KeyError; whether the key is new cannot be decided [{rule}]")
                 continue
             if pol is None and what == "create" and e.ctx.loops:
                 # d[key] = [..] inside the filling loop without a test that key is new: every further position overwrites the list
